@@ -2050,3 +2050,438 @@ pub fn builders(a: &ShardArgs, r: &mut Rng, rounds: usize) {
         }
     }
 }
+
+// ---- K5: device attributes through the master's handler and the outstation's application ---------
+
+use dnp3::app::attr::{
+    AttrSet, AttrValue, Attribute, BoolAttr, FloatAttr, FloatType, OctetStringAttr, OwnedAttrValue, OwnedAttribute,
+    StringAttr, TimeAttr, UIntAttr, VariationListAttr,
+};
+
+fn c_text(p: *const std::os::raw::c_char) -> String {
+    if p.is_null() {
+        return "<null>".into();
+    }
+    unsafe { std::ffi::CStr::from_ptr(p) }.to_string_lossy().to_string()
+}
+
+fn iter_bytes(it: *mut crate::ByteIterator<'_>) -> Vec<u8> {
+    let mut v = vec![];
+    loop {
+        let p = unsafe { crate::byte_iterator_next(it) };
+        if p.is_null() {
+            break;
+        }
+        v.push(unsafe { *p });
+    }
+    v
+}
+
+extern "C" fn ra_string(_i: ffi::HeaderInfo, attr: c_int, set: u8, var: u8, value: *const std::os::raw::c_char, ctx: *mut c_void) {
+    unsafe { log(ctx) }.push(format!("string {} {set} {var} {:?}", norm(&ffi::StringAttr::from(attr)), c_text(value)));
+}
+extern "C" fn ra_list(_i: ffi::HeaderInfo, attr: c_int, set: u8, var: u8, value: *mut crate::AttrItemIter, ctx: *mut c_void) {
+    let mut items = vec![];
+    while let Some(x) = unsafe { crate::attr_item_iter_next(value) } {
+        items.push((x.variation, x.properties.is_writable));
+    }
+    unsafe { log(ctx) }.push(format!("list {} {set} {var} {items:?}", norm(&ffi::VariationListAttr::from(attr))));
+}
+extern "C" fn ra_uint(_i: ffi::HeaderInfo, attr: c_int, set: u8, var: u8, value: u32, ctx: *mut c_void) {
+    unsafe { log(ctx) }.push(format!("uint {} {set} {var} {value}", norm(&ffi::UintAttr::from(attr))));
+}
+extern "C" fn ra_bool(_i: ffi::HeaderInfo, attr: c_int, set: u8, var: u8, value: bool, ctx: *mut c_void) {
+    unsafe { log(ctx) }.push(format!("bool {} {set} {var} {value}", norm(&ffi::BoolAttr::from(attr))));
+}
+extern "C" fn ra_int(_i: ffi::HeaderInfo, attr: c_int, set: u8, var: u8, value: i32, ctx: *mut c_void) {
+    unsafe { log(ctx) }.push(format!("int {} {set} {var} {value}", norm(&ffi::IntAttr::from(attr))));
+}
+extern "C" fn ra_time(_i: ffi::HeaderInfo, attr: c_int, set: u8, var: u8, value: u64, ctx: *mut c_void) {
+    unsafe { log(ctx) }.push(format!("time {} {set} {var} {value}", norm(&ffi::TimeAttr::from(attr))));
+}
+extern "C" fn ra_float(_i: ffi::HeaderInfo, attr: c_int, set: u8, var: u8, value: f64, ctx: *mut c_void) {
+    unsafe { log(ctx) }.push(format!("float {} {set} {var} {:016x}", norm(&ffi::FloatAttr::from(attr)), value.to_bits()));
+}
+extern "C" fn ra_octets<'a>(_i: ffi::HeaderInfo, attr: c_int, set: u8, var: u8, value: *mut crate::ByteIterator<'a>, ctx: *mut c_void) {
+    let b = iter_bytes(value);
+    unsafe { log(ctx) }.push(format!("octets {} {set} {var} {b:02x?}", norm(&ffi::OctetStringAttr::from(attr))));
+}
+extern "C" fn ra_bits<'a>(_i: ffi::HeaderInfo, attr: c_int, set: u8, var: u8, value: *mut crate::ByteIterator<'a>, ctx: *mut c_void) {
+    let b = iter_bytes(value);
+    unsafe { log(ctx) }.push(format!("bits {} {set} {var} {b:02x?}", norm(&ffi::BitStringAttr::from(attr))));
+}
+
+const STRING_ATTRS: [StringAttr; 18] = [
+    StringAttr::ConfigId,
+    StringAttr::ConfigVersion,
+    StringAttr::ConfigDigestAlgorithm,
+    StringAttr::MasterResourceId,
+    StringAttr::UserAssignedSecondaryOperatorName,
+    StringAttr::UserAssignedPrimaryOperatorName,
+    StringAttr::UserAssignedSystemName,
+    StringAttr::UserSpecificAttributes,
+    StringAttr::DeviceManufacturerSoftwareVersion,
+    StringAttr::DeviceManufacturerHardwareVersion,
+    StringAttr::UserAssignedOwnerName,
+    StringAttr::UserAssignedLocation,
+    StringAttr::UserAssignedId,
+    StringAttr::UserAssignedDeviceName,
+    StringAttr::DeviceSerialNumber,
+    StringAttr::DeviceSubsetAndConformance,
+    StringAttr::ProductNameAndModel,
+    StringAttr::DeviceManufacturersName,
+];
+const UINT_ATTRS: [UIntAttr; 23] = [
+    UIntAttr::SecureAuthVersion,
+    UIntAttr::NumSecurityStatsPerAssoc,
+    UIntAttr::NumMasterDefinedDataSetProto,
+    UIntAttr::NumOutstationDefinedDataSetProto,
+    UIntAttr::NumMasterDefinedDataSets,
+    UIntAttr::NumOutstationDefinedDataSets,
+    UIntAttr::MaxBinaryOutputPerRequest,
+    UIntAttr::LocalTimingAccuracy,
+    UIntAttr::DurationOfTimeAccuracy,
+    UIntAttr::MaxAnalogOutputIndex,
+    UIntAttr::NumAnalogOutputs,
+    UIntAttr::MaxBinaryOutputIndex,
+    UIntAttr::NumBinaryOutputs,
+    UIntAttr::MaxCounterIndex,
+    UIntAttr::NumCounter,
+    UIntAttr::MaxAnalogInputIndex,
+    UIntAttr::NumAnalogInput,
+    UIntAttr::MaxDoubleBitBinaryInputIndex,
+    UIntAttr::NumDoubleBitBinaryInput,
+    UIntAttr::MaxBinaryInputIndex,
+    UIntAttr::NumBinaryInput,
+    UIntAttr::MaxTxFragmentSize,
+    UIntAttr::MaxRxFragmentSize,
+];
+const BOOL_ATTRS: [BoolAttr; 9] = [
+    BoolAttr::SupportsAnalogOutputEvents,
+    BoolAttr::SupportsBinaryOutputEvents,
+    BoolAttr::SupportsFrozenCounterEvents,
+    BoolAttr::SupportsFrozenCounters,
+    BoolAttr::SupportsCounterEvents,
+    BoolAttr::SupportsFrozenAnalogInputs,
+    BoolAttr::SupportsAnalogInputEvents,
+    BoolAttr::SupportsDoubleBitBinaryInputEvents,
+    BoolAttr::SupportsBinaryInputEvents,
+];
+const FLOAT_ATTRS: [FloatAttr; 3] = [
+    FloatAttr::DeviceLocationAltitude,
+    FloatAttr::DeviceLocationLongitude,
+    FloatAttr::DeviceLocationLatitude,
+];
+const TIME_ATTRS: [TimeAttr; 2] = [TimeAttr::ConfigBuildDate, TimeAttr::ConfigLastChangeDate];
+
+/// name of the well-known attribute that variation `var` of the default set is, for a value of kind `kind`
+fn known_name(kind: &str, set: u8, var: u8) -> String {
+    if set != 0 {
+        return "unknown".into();
+    }
+    let hit = match kind {
+        "string" => STRING_ATTRS.iter().find(|x| x.variation() == var).map(|x| norm(x)),
+        "uint" => UINT_ATTRS.iter().find(|x| x.variation() == var).map(|x| norm(x)),
+        "bool" => BOOL_ATTRS.iter().find(|x| x.variation() == var).map(|x| norm(x)),
+        "float" => FLOAT_ATTRS.iter().find(|x| x.variation() == var).map(|x| norm(x)),
+        "time" => TIME_ATTRS.iter().find(|x| x.variation() == var).map(|x| norm(x)),
+        "octets" => {
+            if OctetStringAttr::ConfigDigest.variation() == var {
+                Some(norm(&OctetStringAttr::ConfigDigest))
+            } else {
+                None
+            }
+        }
+        "list" => {
+            if VariationListAttr::ListOfVariations.variation() == var {
+                Some(norm(&VariationListAttr::ListOfVariations))
+            } else {
+                None
+            }
+        }
+        _ => None,
+    };
+    hit.unwrap_or_else(|| "unknown".into())
+}
+
+/// every variation of the default set that has a well-known meaning, with the kind of value it takes
+fn known_variations() -> Vec<(u8, &'static str)> {
+    let mut v: Vec<(u8, &'static str)> = vec![];
+    v.extend(STRING_ATTRS.iter().map(|x| (x.variation(), "string")));
+    v.extend(UINT_ATTRS.iter().map(|x| (x.variation(), "uint")));
+    v.extend(BOOL_ATTRS.iter().map(|x| (x.variation(), "bool")));
+    v.extend(FLOAT_ATTRS.iter().map(|x| (x.variation(), "float")));
+    v.extend(TIME_ATTRS.iter().map(|x| (x.variation(), "time")));
+    v.push((OctetStringAttr::ConfigDigest.variation(), "octets"));
+    v
+}
+
+pub fn attribute_adapters(a: &ShardArgs, r: &mut Rng) {
+    let mut got: Box<Log> = Box::new(vec![]);
+    let mut want: Log = vec![];
+    let mut h = read_handler(&mut *got as *mut Log);
+    h.handle_string_attr = Some(ra_string);
+    h.handle_variation_list_attr = Some(ra_list);
+    h.handle_uint_attr = Some(ra_uint);
+    h.handle_bool_attr = Some(ra_bool);
+    h.handle_int_attr = Some(ra_int);
+    h.handle_time_attr = Some(ra_time);
+    h.handle_float_attr = Some(ra_float);
+    h.handle_octet_string_attr = Some(ra_octets);
+    h.handle_bit_string_attr = Some(ra_bits);
+    let known = known_variations();
+    let mut delivered = 0u64;
+    // (set, variation, kind): every well-known variation with its own kind of value, then the same variations in a private
+    // set, then arbitrary variations with every kind
+    let mut cases: Vec<(u8, u8, &'static str)> = vec![];
+    for (var, kind) in &known {
+        cases.push((0, *var, kind));
+        cases.push((7, *var, kind));
+    }
+    for _ in 0..120 {
+        let kind = *r.pick(&["string", "uint", "int", "float", "time", "octets", "bits"]);
+        let set = *r.pick(&[1u8, 2, 100, 255]);
+        cases.push((set, r.u8(), kind));
+    }
+    for (set, var, kind) in cases {
+        let (value, text): (OwnedAttrValue, String) = match kind {
+            "string" => {
+                let t = format!("value-{}", r.u16());
+                (OwnedAttrValue::VisibleString(t.clone()), format!("{t:?}"))
+            }
+            "uint" => {
+                let v = match r.below(3) {
+                    0 => r.u8() as u32,
+                    1 => r.u16() as u32,
+                    _ => r.u64() as u32,
+                };
+                (OwnedAttrValue::UnsignedInt(v), v.to_string())
+            }
+            "bool" => {
+                let v = r.bool();
+                (OwnedAttrValue::SignedInt(v as i32), v.to_string())
+            }
+            "int" => {
+                let v = match r.below(3) {
+                    0 => (r.u8() as i8) as i32,
+                    1 => (r.u16() as i16) as i32,
+                    _ => r.u64() as i32,
+                };
+                (OwnedAttrValue::SignedInt(v), v.to_string())
+            }
+            "float" => {
+                if r.bool() {
+                    let v = (r.u16() as f32) * 0.5 - 1000.0;
+                    (OwnedAttrValue::FloatingPoint(FloatType::F32(v)), format!("{:016x}", (v as f64).to_bits()))
+                } else {
+                    let v = (r.u64() as u32) as f64 * 0.125 - 5.0e8;
+                    (OwnedAttrValue::FloatingPoint(FloatType::F64(v)), format!("{:016x}", v.to_bits()))
+                }
+            }
+            "time" => {
+                let v = r.u64() & 0x0000_FFFF_FFFF_FFFF;
+                (OwnedAttrValue::Dnp3Time(Timestamp::new(v)), v.to_string())
+            }
+            "octets" => {
+                let b: Vec<u8> = (0..r.range(0, 20)).map(|_| r.u8()).collect();
+                (OwnedAttrValue::OctetString(b.clone()), format!("{b:02x?}"))
+            }
+            _ => {
+                let b: Vec<u8> = (0..r.range(0, 20)).map(|_| r.u8()).collect();
+                (OwnedAttrValue::BitString(b.clone()), format!("{b:02x?}"))
+            }
+        };
+        let owned = OwnedAttribute::new(AttrSet::new(set), var, value);
+        let Some(bytes) = dnp3::verif::util::owned_attribute_bytes(&owned) else {
+            continue;
+        };
+        // what the handler must be told: the kind follows the value; in the default set a signed integer in one of the
+        // boolean variations is a boolean; a value of the wrong kind for a well-known variation is not delivered at all
+        let native_kind = if kind == "bool" && set != 0 { "int" } else { kind };
+        let shown = if native_kind == "int" && kind == "bool" {
+            // private set: the integer itself
+            if text == "true" { "1".to_string() } else { "0".to_string() }
+        } else {
+            text.clone()
+        };
+        let name = match native_kind {
+            "int" | "bits" => "unknown".to_string(),
+            k => known_name(k, set, var),
+        };
+        let before = got.len();
+        let ok = dnp3::verif::util::deliver_response_objects(&bytes, &mut h);
+        if !ok {
+            continue;
+        }
+        if got.len() == before {
+            // refused by the library's own typing of the default set (e.g. an integer in a string variation): not this check's subject
+            out::count("attribute_not_delivered_by_library", 1);
+            continue;
+        }
+        want.truncate(before);
+        want.push(format!("{native_kind} {name} {set} {var} {shown}"));
+        delivered += 1;
+        // keep the two logs aligned entry by entry
+        if got.len() != want.len() {
+            break;
+        }
+    }
+    // variation lists, encoded by hand (the owned attribute type has no such value): g0v255, range 8, U8BS8LIST
+    for set in [0u8, 3] {
+        let items: Vec<(u8, bool)> = (0..r.range(0, 9)).map(|_| (r.u8(), r.bool())).collect();
+        let mut bytes = vec![0u8, 255, 0x00, set, set, 254, (items.len() * 2) as u8];
+        for (v, w) in &items {
+            bytes.push(*v);
+            bytes.push(*w as u8);
+        }
+        let before = got.len();
+        if dnp3::verif::util::deliver_response_objects(&bytes, &mut h) && got.len() > before {
+            want.push(format!("list {} {set} 255 {items:?}", known_name("list", set, 255)));
+            delivered += 1;
+        }
+    }
+    out::count("callbacks_ok_attributes_delivered", delivered);
+    compare(a, "read_handler_attributes", "all", &got, &want);
+
+    // ---- the outstation side: a WRITE of an attribute reaches the application through the typed callbacks
+    static ANSWER: std::sync::atomic::AtomicBool = std::sync::atomic::AtomicBool::new(true);
+    extern "C" fn wa_string(set: u8, var: u8, attr: c_int, value: *const std::os::raw::c_char, ctx: *mut c_void) -> bool {
+        unsafe { log(ctx) }.push(format!("string {} {set} {var} {:?}", norm(&ffi::StringAttr::from(attr)), c_text(value)));
+        ANSWER.load(Ordering::Relaxed)
+    }
+    extern "C" fn wa_float(set: u8, var: u8, attr: c_int, value: f32, ctx: *mut c_void) -> bool {
+        unsafe { log(ctx) }.push(format!("float32 {} {set} {var} {:08x}", norm(&ffi::FloatAttr::from(attr)), value.to_bits()));
+        ANSWER.load(Ordering::Relaxed)
+    }
+    extern "C" fn wa_double(set: u8, var: u8, attr: c_int, value: f64, ctx: *mut c_void) -> bool {
+        unsafe { log(ctx) }.push(format!("float64 {} {set} {var} {:016x}", norm(&ffi::FloatAttr::from(attr)), value.to_bits()));
+        ANSWER.load(Ordering::Relaxed)
+    }
+    extern "C" fn wa_uint(set: u8, var: u8, attr: c_int, value: u32, ctx: *mut c_void) -> bool {
+        unsafe { log(ctx) }.push(format!("uint {} {set} {var} {value}", norm(&ffi::UintAttr::from(attr))));
+        ANSWER.load(Ordering::Relaxed)
+    }
+    extern "C" fn wa_int(set: u8, var: u8, attr: c_int, value: i32, ctx: *mut c_void) -> bool {
+        unsafe { log(ctx) }.push(format!("int {} {set} {var} {value}", norm(&ffi::IntAttr::from(attr))));
+        ANSWER.load(Ordering::Relaxed)
+    }
+    extern "C" fn wa_octets<'a>(set: u8, var: u8, attr: c_int, value: *mut crate::ByteIterator<'a>, ctx: *mut c_void) -> bool {
+        let b = iter_bytes(value);
+        unsafe { log(ctx) }.push(format!("octets {} {set} {var} {b:02x?}", norm(&ffi::OctetStringAttr::from(attr))));
+        ANSWER.load(Ordering::Relaxed)
+    }
+    extern "C" fn wa_bits<'a>(set: u8, var: u8, attr: c_int, value: *mut crate::ByteIterator<'a>, ctx: *mut c_void) -> bool {
+        let b = iter_bytes(value);
+        unsafe { log(ctx) }.push(format!("bits {} {set} {var} {b:02x?}", norm(&ffi::BitStringAttr::from(attr))));
+        ANSWER.load(Ordering::Relaxed)
+    }
+    extern "C" fn wa_time(set: u8, var: u8, attr: c_int, value: u64, ctx: *mut c_void) -> bool {
+        unsafe { log(ctx) }.push(format!("time {} {set} {var} {value}", norm(&ffi::TimeAttr::from(attr))));
+        ANSWER.load(Ordering::Relaxed)
+    }
+    let mut got2: Box<Log> = Box::new(vec![]);
+    let mut want2: Log = vec![];
+    let mut app = application(&mut *got2 as *mut Log);
+    app.write_string_attr = Some(wa_string);
+    app.write_float_attr = Some(wa_float);
+    app.write_double_attr = Some(wa_double);
+    app.write_uint_attr = Some(wa_uint);
+    app.write_int_attr = Some(wa_int);
+    app.write_octet_string_attr = Some(wa_octets);
+    app.write_bit_string_attr = Some(wa_bits);
+    app.write_time_attr = Some(wa_time);
+    let mut answers_ok = 0u64;
+    for round in 0..200 {
+        let (set, var, kind): (u8, u8, &str) = if round < known.len() {
+            (0, known[round].0, known[round].1)
+        } else {
+            (*r.pick(&[1u8, 9, 255]), r.u8(), *r.pick(&["string", "uint", "int", "float", "time", "octets", "bits"]))
+        };
+        let answer = r.bool();
+        ANSWER.store(answer, Ordering::Relaxed);
+        let text = format!("w-{}", r.u16());
+        let bytes: Vec<u8> = (0..r.range(0, 12)).map(|_| r.u8()).collect();
+        let (value, line, reaches): (AttrValue, String, bool) = match kind {
+            "string" => (AttrValue::VisibleString(&text), format!("string {} {set} {var} {text:?}", known_name("string", set, var)), true),
+            "uint" => {
+                let v = r.u64() as u32;
+                (AttrValue::UnsignedInt(v), format!("uint {} {set} {var} {v}", known_name("uint", set, var)), true)
+            }
+            "bool" => {
+                // none of the boolean attributes can be written: the application is not asked
+                (AttrValue::SignedInt(1), String::new(), false)
+            }
+            "int" => {
+                let v = r.u64() as i32;
+                (AttrValue::SignedInt(v), format!("int unknown {set} {var} {v}"), true)
+            }
+            "float" => {
+                if r.bool() {
+                    let v = (r.u16() as f32) * 0.25;
+                    (AttrValue::FloatingPoint(FloatType::F32(v)), format!("float32 {} {set} {var} {:08x}", known_name("float", set, var), v.to_bits()), true)
+                } else {
+                    let v = (r.u64() as u32) as f64 * 0.5;
+                    (AttrValue::FloatingPoint(FloatType::F64(v)), format!("float64 {} {set} {var} {:016x}", known_name("float", set, var), v.to_bits()), true)
+                }
+            }
+            "time" => {
+                let v = r.u64() & 0x0000_FFFF_FFFF_FFFF;
+                (AttrValue::Dnp3Time(Timestamp::new(v)), format!("time {} {set} {var} {v}", known_name("time", set, var)), true)
+            }
+            "octets" => (AttrValue::OctetString(&bytes), format!("octets {} {set} {var} {bytes:02x?}", known_name("octets", set, var)), true),
+            _ => (AttrValue::BitString(&bytes), format!("bits unknown {set} {var} {bytes:02x?}"), true),
+        };
+        let attr = Attribute {
+            set: AttrSet::new(set),
+            variation: var,
+            value,
+        };
+        let before = got2.len();
+        let res = OutstationApplication::write_device_attr(&mut app, attr);
+        let res = now(res).unwrap_or(false);
+        out::eval(1);
+        if reaches {
+            want2.push(line);
+            if res != answer {
+                viol(
+                    a,
+                    "callback_mismatch",
+                    &format!("write_device_attr|{kind}"),
+                    format!("the application answered {answer} to the write of ({set},{var}); the library received {res}"),
+                );
+            } else {
+                answers_ok += 1;
+            }
+        } else if got2.len() != before || res {
+            viol(
+                a,
+                "callback_mismatch",
+                &format!("write_device_attr|{kind}"),
+                format!("a write that cannot be made reached the application or was reported as accepted ({res})"),
+            );
+        }
+    }
+    out::count("callbacks_ok_attribute_write_answers", answers_ok);
+    compare(a, "application_attribute_writes", "all", &got2, &want2);
+}
+
+/// the value of a `MaybeAsync` that is ready at once (the binding adapters never defer)
+fn now<T>(m: MaybeAsync<T>) -> Option<T> {
+    use std::future::Future;
+    use std::task::{Context, Poll, RawWaker, RawWakerVTable, Waker};
+    fn raw() -> RawWaker {
+        fn no(_: *const ()) {}
+        fn clone(_: *const ()) -> RawWaker {
+            raw()
+        }
+        static VT: RawWakerVTable = RawWakerVTable::new(clone, no, no, no);
+        RawWaker::new(std::ptr::null(), &VT)
+    }
+    let waker = unsafe { Waker::from_raw(raw()) };
+    let mut cx = Context::from_waker(&waker);
+    let mut fut = Box::pin(m.get());
+    match fut.as_mut().poll(&mut cx) {
+        Poll::Ready(x) => Some(x),
+        Poll::Pending => None,
+    }
+}
